@@ -13,12 +13,12 @@ EXPLANATIONS = {
     "outer cycle, and every other head's memo has converged; otherwise the iteration count is advanced and the loop continues "
     "seeded from the memo just inserted; provisional memos are reused only if all their heads are final with the same verified_at and "
     "iteration, or within the same iteration of the same revision; cycle memos are never backdated (shared C01.8) and provisional "
-    "results read as Changed (shared C01.4e/C01.6). Not decided: that the limit is the LEAST fixpoint, monotonicity, dependency "
+    "results read as Changed (shared C01.4e/C01.6). The cycle seed is Memo::new(Some(cycle_initial(db,id,input)), current_revision, fixpoint_initial(key, iteration)) with a bottom stamp (Revision::start, Durability::MAX, no edges, head = itself, verified_final=false); the stored origin of a cycle query is the flattening of its edges: every edge visited, leaf ingredients record themselves, functions delegate with their own key and strategy, final callees recorded by key, provisional callees expanded (copied for cycle-handling callees, recursed for plain ones), early exits only for a missing memo or an already visited key. Not decided: that the limit is the LEAST fixpoint, monotonicity, dependency "
     "flattening correctness over histories.",
     "C13": "Decided: for CycleRecoveryStrategy::FallbackImmediate the value that leaves execute_maybe_iterate for a cycle participant "
     "and for a cycle head is C::cycle_initial(..) (the declared fallback), never the body's result, and value convergence is "
     "constantly true; functions that complete outside any cycle keep the body's value; cycle_result => FallbackImmediate in the "
-    "generated Configuration (C13.3, specimen). Not decided: which functions participate for a concrete call graph.",
+    "generated Configuration (C13.3, specimen). Generated glue forwards (db,id,input) / (db,cycle,last,value,input) positionally and keeps the new value without a cycle_fn; a new cycle met while validating an old memo is reported Changed for both recovering strategies; the release mode chosen at completion is not overridden in execute_maybe_iterate. KNOWN FINDING F5: a provisional participant of an earlier revision is re-executed alone (deep_verify_memo). Not decided: which functions participate for a concrete call graph.",
     "C15": "Decided: MAX_ITERATIONS == 200 (< u8::MAX); increment_iteration yields Some only while the iteration byte stays <= "
     "MAX_ITERATIONS; every caller of increment_iteration turns None into a panic; the only back edge of the iteration loop is "
     "dominated by taking the Err((_, new_iteration)) of try_complete_cycle_head whose iteration is max_iteration.increment_iteration(); "
